@@ -39,10 +39,11 @@ LEVEL_NOTE = "trusted: SHA-256, the Python parser/merkle/commitment reference, t
 
 def runs(tier, seed):
     if tier == "thorough":
-        return [Run("merkle", cases=200000, params={"maxn": 300}, timeout=3000, name="merkle"),
-                Run("blockmut", cases=1000, params={"rounds": 8}, timeout=3000, name="blockmut")]
-    return [Run("merkle", cases=5000, params={"maxn": 300}, timeout=1200, name="merkle"),
-            Run("blockmut", cases=32, params={"rounds": 6}, timeout=1200, name="blockmut")]
+        # sized for <= 15 min on an idle 16-core box: ~40 ms CPU per merkle case, ~15 s CPU per history (ASan)
+        return [Run("merkle", cases=150000, params={"maxn": 300}, timeout=7200, name="merkle"),
+                Run("blockmut", cases=500, params={"rounds": 8}, timeout=7200, name="blockmut")]
+    return [Run("merkle", cases=5000, params={"maxn": 300}, timeout=2400, name="merkle"),
+            Run("blockmut", cases=32, params={"rounds": 6}, timeout=2400, name="blockmut")]
 
 
 def check(rec, st):
